@@ -1,76 +1,546 @@
+// Command partstack executes TLC-generated PartStoreStack.tla cases (C15) on REAL
+// part store stacks built from partstore/config JSON over a real sqlite database.
+//
+//	partstack <cases.ndjson> <trace.ndjson>
+//
+// A case = stack (layer names, top first) + size/content class of blob b1 + a
+// program of PartStore calls (put/get/del/ids in mode nil | tx | auto, begin/commit/
+// rollback of the caller's transaction, drain of the outbox worker).  Per call the
+// driver logs the error kind and, for reads, which of the blobs IT wrote in this
+// case the returned bytes are equal to (sha256 + length) - never an expected value.
+// The verdict is TLC's (PartStoreStackTrace.tla).
 package main
 
 import (
+	"bufio"
+	"bytes"
 	"context"
+	"crypto/sha256"
 	"database/sql"
+	"encoding/json"
+	"errors"
 	"fmt"
 	"io"
+	"math/rand"
 	"os"
 	"path/filepath"
+	"sort"
+	"strings"
+	"sync"
 	"time"
 
 	"github.com/jdillenkofer/pithos/internal/storage/database"
+	repositoryFactory "github.com/jdillenkofer/pithos/internal/storage/database/repository"
 	"github.com/jdillenkofer/pithos/internal/storage/metadatapart/partstore"
+	"github.com/jdillenkofer/pithos/internal/storage/metadatapart/partstore/middlewares/encryption/tink"
 	"github.com/jdillenkofer/pithos/verifharness/stacks"
+	"github.com/jdillenkofer/pithos/verifharness/vtrace"
 )
+
+type op struct {
+	Op   string `json:"op"`
+	Mode string `json:"mode"`
+	Id   string `json:"id"`
+	Blob string `json:"blob"`
+	Ro   bool   `json:"ro"`
+}
+
+type params struct {
+	CompSample int `json:"compsample"`
+	TinkCss    int `json:"tinkcss"`
+	EcData     int `json:"ecdata"`
+	EcParity   int `json:"ecparity"`
+	EcBlock    int `json:"ecblock"`
+	CacheMax   int `json:"cachemax"`
+	B2Size     int `json:"b2size"`
+}
+
+type kase struct {
+	Case    int      `json:"case"`
+	Stack   []string `json:"stack"`
+	Sem     []string `json:"sem"`
+	Size    int      `json:"size"`
+	Content string   `json:"content"`
+	Big     bool     `json:"big"`
+	Params  params   `json:"params"`
+	Prog    []op     `json:"prog"`
+}
+
+// ---------------------------------------------------------------- gate for the outbox worker
+
+type driverKey struct{}
+
+// gate blocks every transaction that is not begun by the driver itself (i.e. the
+// outbox worker's) while it is closed.  The worker touches nothing but the database
+// before its first transaction, so a closed gate means "the worker does not run".
+type gate struct {
+	mu sync.Mutex
+	ch chan struct{} // closed channel = gate open
+}
+
+func newGate() *gate { return &gate{ch: make(chan struct{})} }
+func (g *gate) open() {
+	g.mu.Lock()
+	defer g.mu.Unlock()
+	select {
+	case <-g.ch:
+	default:
+		close(g.ch)
+	}
+}
+func (g *gate) close() {
+	g.mu.Lock()
+	defer g.mu.Unlock()
+	select {
+	case <-g.ch:
+		g.ch = make(chan struct{})
+	default:
+	}
+}
+func (g *gate) wait(ctx context.Context) error {
+	g.mu.Lock()
+	ch := g.ch
+	g.mu.Unlock()
+	select {
+	case <-ch:
+		return nil
+	case <-ctx.Done():
+		return ctx.Err()
+	}
+}
+
+type gatedDB struct {
+	database.Database
+	g *gate
+}
+
+func (d *gatedDB) BeginTx(ctx context.Context, opts *sql.TxOptions) (*database.TxController, error) {
+	if ctx.Value(driverKey{}) == nil {
+		if err := d.g.wait(ctx); err != nil {
+			return nil, err
+		}
+	}
+	return d.Database.BeginTx(ctx, opts)
+}
+
+// ---------------------------------------------------------------- stack construction
+
+type env struct {
+	dir       string
+	db        database.Database
+	g         *gate
+	ps        partstore.PartStore
+	outboxIds []string
+	n         int
+}
+
+func q(s string) string { b, _ := json.Marshal(s); return string(b) }
+
+func (e *env) cfg(layers []string, p params) string {
+	e.n++
+	k := e.n
+	inner := func() string { return e.cfg(layers[1:], p) }
+	switch layers[0] {
+	case "fs":
+		return fmt.Sprintf(`{"type":"FilesystemPartStore","root":%s}`, q(filepath.Join(e.dir, fmt.Sprintf("fs%d", k))))
+	case "sql":
+		return fmt.Sprintf(`{"type":"SqlPartStore","db":{"type":"DatabaseReference","refName":"db"},"partStoreId":%s}`, q(fmt.Sprintf("ps%d", k)))
+	case "gzip", "zstd":
+		return fmt.Sprintf(`{"type":"CompressionPartStoreMiddleware","compressionAlgorithm":%s,"sampleSizeBytes":%d,"innerPartStore":%s}`, q(layers[0]), p.CompSample, inner())
+	case "tink":
+		return fmt.Sprintf(`{"type":"TinkEncryptionPartStoreMiddleware","kmsType":"local","password":"verif-password","innerPartStore":%s}`, inner())
+	case "ec":
+		var shards []string
+		for i := 0; i < p.EcData+p.EcParity; i++ {
+			shards = append(shards, inner())
+		}
+		return fmt.Sprintf(`{"type":"ErasureCodedPartStoreMiddleware","dataShards":%d,"parityShards":%d,"streamBlockSize":%d,"healScanIntervalSeconds":0,"partStores":[%s]}`,
+			p.EcData, p.EcParity, p.EcBlock, strings.Join(shards, ","))
+	case "cachemem", "cachefs":
+		pers := `{"type":"InMemoryPersistor"}`
+		if layers[0] == "cachefs" {
+			pers = fmt.Sprintf(`{"type":"FilesystemPersistor","root":%s}`, q(filepath.Join(e.dir, fmt.Sprintf("cache%d", k))))
+		}
+		return fmt.Sprintf(`{"type":"CachePartStore","maxPartSizeBytes":%d,"cacheReadErrorsAsMiss":false,"cache":{"type":"GenericCache","cachePersistor":%s,"cacheEvictionPolicy":{"type":"EvictNothingEvictionPolicy"}},"innerPartStore":%s}`,
+			p.CacheMax, pers, inner())
+	case "outbox":
+		id := fmt.Sprintf("ob%d", k)
+		e.outboxIds = append(e.outboxIds, id)
+		return fmt.Sprintf(`{"type":"OutboxPartStore","db":{"type":"DatabaseReference","refName":"gdb"},"outboxId":%s,"innerPartStore":%s}`, q(id), inner())
+	}
+	panic("unknown layer " + layers[0])
+}
+
+var scratch string
+
+func build(stack []string, p params) (*env, error) {
+	dir, err := os.MkdirTemp(scratch, "stk-")
+	if err != nil {
+		return nil, err
+	}
+	e := &env{dir: dir, g: newGate()}
+	e.db, err = stacks.OpenSqlite(filepath.Join(dir, "parts.db"))
+	if err != nil {
+		return nil, err
+	}
+	cfg := e.cfg(stack, p)
+	e.ps, err = stacks.BuildPartStore([]byte(cfg), map[string]database.Database{"db": e.db, "gdb": &gatedDB{e.db, e.g}})
+	if err != nil {
+		return nil, fmt.Errorf("build %v: %w\n%s", stack, err, cfg)
+	}
+	// Start with a context WITHOUT the driver mark: the outbox worker inherits its values.
+	if err := e.ps.Start(context.Background()); err != nil {
+		return nil, fmt.Errorf("start %v: %w", stack, err)
+	}
+	return e, nil
+}
+
+func (e *env) destroy() {
+	e.g.open()
+	ctx, cancel := context.WithTimeout(context.Background(), 30*time.Second)
+	_ = e.ps.Stop(ctx)
+	cancel()
+	_ = e.db.Close()
+	_ = os.RemoveAll(e.dir)
+}
+
+var dctx = context.WithValue(context.Background(), driverKey{}, true)
+
+// drain lets the outbox worker run until every outbox is empty, then stops it again.
+func (e *env) drain() (bool, string) {
+	repo, err := repositoryFactory.NewPartOutboxEntryRepository(e.db)
+	if err != nil {
+		return false, err.Error()
+	}
+	e.g.open()
+	defer e.g.close()
+	deadline := time.Now().Add(60 * time.Second)
+	for {
+		total := 0
+		err := database.WithTx(dctx, e.db, &sql.TxOptions{ReadOnly: true}, func(ctx context.Context, tx database.Tx) error {
+			for _, id := range e.outboxIds {
+				c, err := repo.Count(ctx, tx.SqlTx(), id)
+				if err != nil {
+					return err
+				}
+				total += c
+			}
+			return nil
+		})
+		if err != nil {
+			return false, err.Error()
+		}
+		if total == 0 {
+			return true, ""
+		}
+		if time.Now().After(deadline) {
+			return false, fmt.Sprintf("%d outbox entries left after 60s", total)
+		}
+		time.Sleep(2 * time.Millisecond)
+	}
+}
+
+// ---------------------------------------------------------------- bytes
+
+func gen(content string, size int, seed int64) []byte {
+	b := make([]byte, size)
+	r := rand.New(rand.NewSource(seed))
+	switch content {
+	case "zeros":
+	case "random":
+		r.Read(b)
+	case "repeat":
+		pat := make([]byte, 37)
+		r.Read(pat)
+		for i := range b {
+			b[i] = pat[i%len(pat)]
+		}
+	default:
+		panic("content class " + content)
+	}
+	return b
+}
+
+type blob struct {
+	name string
+	data []byte
+	sum  [32]byte
+}
+
+func mk(name string, data []byte) blob { return blob{name, data, sha256.Sum256(data)} }
+
+// ---------------------------------------------------------------- case execution
+
+type runner struct {
+	e    *env
+	k    kase
+	ids  map[string]partstore.PartId
+	bl   map[string]blob
+	txc  *database.TxController
+	tctx context.Context
+	recs []map[string]any
+}
+
+func errKind(err error) (string, string) {
+	if err == nil {
+		return "none", ""
+	}
+	if errors.Is(err, partstore.ErrPartNotFound) {
+		return "notfound", ""
+	}
+	return "other", err.Error()
+}
+
+func (r *runner) rec(o op) map[string]any {
+	m := map[string]any{"ev": "op", "case": r.k.Case, "op": o.Op, "mode": o.Mode, "id": o.Id, "blob": o.Blob, "ro": o.Ro,
+		"err": "none", "detail": "", "match": []string{}, "len": -1, "ids": []string{}, "foreign": 0, "ok": true,
+		"sem": r.k.Sem, "big": r.k.Big}
+	r.recs = append(r.recs, m)
+	return m
+}
+
+// with runs fn in the transactional context the mode asks for.
+func (r *runner) with(mode string, ro bool, fn func(ctx context.Context, tx database.Tx) error) error {
+	switch mode {
+	case "nil":
+		return fn(dctx, nil)
+	case "tx":
+		return fn(r.tctx, r.txc)
+	case "auto":
+		return database.WithTx(dctx, r.e.db, &sql.TxOptions{ReadOnly: ro}, fn)
+	}
+	panic("mode " + mode)
+}
+
+func (r *runner) exec(o op) {
+	m := r.rec(o)
+	var err error
+	switch o.Op {
+	case "begin":
+		r.txc, err = r.e.db.BeginTx(dctx, &sql.TxOptions{ReadOnly: o.Ro})
+		if err == nil {
+			r.tctx = database.ContextWithTx(dctx, r.txc)
+		}
+	case "commit":
+		err = r.txc.Commit(r.tctx)
+		r.txc = nil
+	case "rollback":
+		err = r.txc.Rollback(r.tctx)
+		r.txc = nil
+	case "drain":
+		ok, detail := r.e.drain()
+		m["ok"], m["detail"] = ok, detail
+	case "put":
+		err = r.with(o.Mode, false, func(ctx context.Context, tx database.Tx) error {
+			return r.e.ps.PutPart(ctx, tx, r.ids[o.Id], bytes.NewReader(r.bl[o.Blob].data))
+		})
+	case "del":
+		err = r.with(o.Mode, false, func(ctx context.Context, tx database.Tx) error {
+			return r.e.ps.DeletePart(ctx, tx, r.ids[o.Id])
+		})
+	case "get":
+		var data []byte
+		err = r.with(o.Mode, true, func(ctx context.Context, tx database.Tx) error {
+			rc, err := r.e.ps.GetPart(ctx, tx, r.ids[o.Id])
+			if err != nil {
+				return err
+			}
+			d, rerr := io.ReadAll(rc)
+			cerr := rc.Close()
+			if rerr != nil {
+				return fmt.Errorf("read: %w", rerr)
+			}
+			if cerr != nil {
+				return fmt.Errorf("close: %w", cerr)
+			}
+			data = d
+			return nil
+		})
+		if err == nil {
+			sum := sha256.Sum256(data)
+			match := []string{}
+			for _, n := range []string{"b1", "b2", "empty"} {
+				if b := r.bl[n]; len(b.data) == len(data) && b.sum == sum {
+					match = append(match, n)
+				}
+			}
+			m["match"], m["len"] = match, len(data)
+		}
+	case "ids":
+		var got []partstore.PartId
+		err = r.with(o.Mode, true, func(ctx context.Context, tx database.Tx) error {
+			var err error
+			got, err = r.e.ps.GetPartIds(ctx, tx)
+			return err
+		})
+		if err == nil {
+			names, foreign := []string{}, 0
+			seen := map[string]int{}
+			for _, g := range got {
+				name := ""
+				for n, id := range r.ids {
+					if id.Equal(g) {
+						name = n
+					}
+				}
+				if name == "" {
+					foreign++
+				} else {
+					seen[name]++
+				}
+			}
+			for n, c := range seen {
+				names = append(names, n)
+				if c > 1 { // an id listed twice is not a listing of "exactly the live ids"
+					foreign += c - 1
+				}
+			}
+			sort.Strings(names)
+			m["ids"], m["foreign"] = names, foreign
+		}
+	default:
+		panic("op " + o.Op)
+	}
+	if o.Op != "drain" {
+		m["err"], m["detail"] = errKind(err)
+	}
+}
+
+// cleanup returns true if the stack is provably empty again and can be reused.
+func (r *runner) cleanup() bool {
+	if r.txc != nil {
+		_ = r.txc.Rollback(r.tctx)
+		r.txc = nil
+	}
+	err := database.WithTx(dctx, r.e.db, &sql.TxOptions{}, func(ctx context.Context, tx database.Tx) error {
+		for _, id := range r.ids {
+			if err := r.e.ps.DeletePart(ctx, tx, id); err != nil {
+				return err
+			}
+		}
+		return nil
+	})
+	if err != nil {
+		return false
+	}
+	if len(r.e.outboxIds) > 0 {
+		if ok, _ := r.e.drain(); !ok {
+			return false
+		}
+	}
+	clean := false
+	err = database.WithTx(dctx, r.e.db, &sql.TxOptions{ReadOnly: true}, func(ctx context.Context, tx database.Tx) error {
+		ids, err := r.e.ps.GetPartIds(ctx, tx)
+		clean = err == nil && len(ids) == 0
+		return err
+	})
+	return err == nil && clean
+}
 
 func must(err error) {
 	if err != nil {
-		panic(err)
+		fmt.Fprintln(os.Stderr, "partstack:", err)
+		os.Exit(2)
 	}
 }
 
 func main() {
-	dir, _ := os.MkdirTemp("/var/tmp", "psx-")
-	defer os.RemoveAll(dir)
-	db, err := stacks.OpenSqlite(filepath.Join(dir, "p.db"))
+	in, out := os.Args[1], os.Args[2]
+	scratch = filepath.Dir(out)
+	seed := int64(1)
+	fmt.Sscan(os.Getenv("VERIF_SEED"), &seed)
+	f, err := os.Open(in)
 	must(err)
-	ctx := context.Background()
-	fs := func(n string) string { return fmt.Sprintf(`{"type":"FilesystemPartStore","root":%q}`, filepath.Join(dir, n)) }
-	ec := fmt.Sprintf(`{"type":"ErasureCodedPartStoreMiddleware","dataShards":2,"parityShards":1,"streamBlockSize":4096,"healScanIntervalSeconds":0,"partStores":[%s,%s,%s]}`, fs("a"), fs("b"), fs("c"))
-	ps, err := stacks.BuildPartStore([]byte(ec), map[string]database.Database{"db": db})
+	w, err := vtrace.Create(out)
 	must(err)
-	must(ps.Start(ctx))
-	id, _ := partstore.NewRandomPartId()
-	rc, err := ps.GetPart(ctx, nil, *id)
-	fmt.Println("ec get missing nil-tx: err=", err)
-	if err == nil {
-		b, e := io.ReadAll(rc)
-		fmt.Println(" read", len(b), e)
-		rc.Close()
-	}
-	must(database.WithTx(ctx, db, &sql.TxOptions{ReadOnly: true}, func(ctx context.Context, tx database.Tx) error {
-		ids, err := ps.GetPartIds(ctx, tx)
-		fmt.Println("ids after:", len(ids), err)
-		return nil
-	}))
-	ps.Stop(ctx)
+	var wmu sync.Mutex
 
-	// ec over sql, missing part, RO tx
-	sq := func(n string) string { return fmt.Sprintf(`{"type":"SqlPartStore","db":{"type":"DatabaseReference","refName":"db"},"partStoreId":%q}`, n) }
-	ec2 := fmt.Sprintf(`{"type":"ErasureCodedPartStoreMiddleware","dataShards":2,"parityShards":1,"streamBlockSize":4096,"healScanIntervalSeconds":0,"partStores":[%s,%s,%s]}`, sq("a"), sq("b"), sq("c"))
-	ps, err = stacks.BuildPartStore([]byte(ec2), map[string]database.Database{"db": db})
-	must(err)
-	must(ps.Start(ctx))
-	id3, _ := partstore.NewRandomPartId()
-	done := make(chan struct{})
-	go func() {
-		err = database.WithTx(ctx, db, &sql.TxOptions{ReadOnly: true}, func(ctx context.Context, tx database.Tx) error {
-			rc, err := ps.GetPart(ctx, tx, *id3)
-			fmt.Println("ec/sql RO get missing:", err)
-			if err == nil {
-				b, e := io.ReadAll(rc)
-				fmt.Println(" read", len(b), e)
-				rc.Close()
-			}
-			return nil
-		})
-		fmt.Println("ro tx:", err)
-		close(done)
-	}()
-	select {
-	case <-done:
-	case <-time.After(5 * time.Second):
-		fmt.Println("HANG: ec over sql, missing part in RO tx")
+	groups := map[string][]kase{}
+	var order []string
+	sc := bufio.NewScanner(f)
+	sc.Buffer(make([]byte, 1<<22), 1<<22)
+	total := 0
+	for sc.Scan() {
+		var k kase
+		must(json.Unmarshal(sc.Bytes(), &k))
+		if k.Params.TinkCss != tink.DefaultSegmentSize {
+			must(fmt.Errorf("spec says tink segment size %d, code has %d", k.Params.TinkCss, tink.DefaultSegmentSize))
+		}
+		key := strings.Join(k.Stack, "/")
+		if _, ok := groups[key]; !ok {
+			order = append(order, key)
+		}
+		groups[key] = append(groups[key], k)
+		total++
 	}
+	must(sc.Err())
+
+	var rebuilt, done int
+	var cmu sync.Mutex
+	work := make(chan string)
+	var wg sync.WaitGroup
+	for i := 0; i < 4; i++ {
+		wg.Add(1)
+		go func() {
+			defer wg.Done()
+			for key := range work {
+				ks := groups[key]
+				var e *env
+				for _, k := range ks {
+					if e == nil {
+						var err error
+						e, err = build(k.Stack, k.Params)
+						must(err)
+					}
+					wd := time.AfterFunc(180*time.Second, func() {
+						fmt.Fprintf(os.Stderr, "partstack: case %d on %v hangs (program %+v)\n", k.Case, k.Stack, k.Prog)
+						os.Exit(3)
+					})
+					r := &runner{e: e, k: k, ids: map[string]partstore.PartId{}, bl: map[string]blob{}}
+					for _, n := range []string{"p", "q"} {
+						id, err := partstore.NewRandomPartId()
+						must(err)
+						r.ids[n] = *id
+					}
+					s := seed*1000003 + int64(k.Case)*7919
+					r.bl["b1"] = mk("b1", gen(k.Content, k.Size, s))
+					r.bl["b2"] = mk("b2", gen(k.Content, k.Params.B2Size, s+1))
+					r.bl["empty"] = mk("empty", nil)
+					r.recs = append(r.recs, map[string]any{"ev": "reset", "case": k.Case, "sem": k.Sem, "big": k.Big, "stack": k.Stack,
+						"size": k.Size, "content": k.Content, "op": "-", "mode": "-", "id": "-", "blob": "-", "ro": false,
+						"err": "none", "detail": "", "match": []string{}, "len": -1, "ids": []string{}, "foreign": 0, "ok": true})
+					for _, o := range k.Prog {
+						r.exec(o)
+					}
+					reuse := r.cleanup()
+					wd.Stop()
+					wmu.Lock()
+					for _, m := range r.recs {
+						w.Emit(m)
+					}
+					wmu.Unlock()
+					cmu.Lock()
+					done++
+					if !reuse {
+						rebuilt++
+					}
+					cmu.Unlock()
+					if !reuse {
+						e.destroy()
+						e = nil
+					}
+				}
+				if e != nil {
+					e.destroy()
+				}
+			}
+		}()
+	}
+	for _, key := range order {
+		work <- key
+	}
+	close(work)
+	wg.Wait()
+	must(w.Close())
+	fmt.Printf("partstack: %d cases on %d stacks executed, %d stack rebuilds after unclean cases\n", done, len(order), rebuilt)
 }
